@@ -33,15 +33,21 @@ var (
 	annDashKeys = []string{"-k1", "--k1", "-", "-nri.io/y"}
 	envDashKeys = []string{"-E1", "--E1", "-", "-PATH"}
 	devPaths    = []string{"/dev/d0", "/dev/d1", "/dev/d2", "/dev/d3", "/dev/nvidia0", "/dev/fuse"}
-	rlimitTypes = []string{"RLIMIT_NOFILE", "RLIMIT_NPROC", "RLIMIT_CORE", "RLIMIT_AS", "RLIMIT_MEMLOCK"}
-	pageSizes   = []string{"2MB", "1GB", "64KB"}
-	unifiedKeys = []string{"memory.high", "cpu.weight", "io.max", "pids.max"}
-	annVals     = []string{"", "v1", "v2", "x=y", "{\"a\":1}"}
-	envVals     = []string{"", "v", "w", "a=b", "=", "x y", "/usr/bin:/bin"}
-	mountOpts   = []string{"ro", "rw", "rbind", "bind", "rprivate", "nosuid", "noexec", "nodev", "relabel"} // never rshared/rslave: they read the host mount table
-	hookPaths   = []string{"/bin/h1", "/bin/h2", "/usr/libexec/hook"}
-	cdiNames    = []string{"vendor.com/gpu=0", "vendor.com/gpu=1", "example.org/nic=eth1", "x.io/dev=all"}
-	classes     = []string{"gold", "silver", "bronze"}
+	// Families WITHOUT removal-marker semantics (rlimit types, hugepage sizes, unified keys,
+	// CDI names, hook paths and args, mount options, class names, cgroups path, and all
+	// VALUES): a leading dash means nothing there, "-k" is an ordinary key or value that must
+	// appear literally and must not touch its sibling "k". The dash-named entries sit at the
+	// end of each alphabet (shrinking prefers the plain ones).
+	rlimitTypes     = []string{"RLIMIT_NOFILE", "RLIMIT_NPROC", "RLIMIT_CORE", "RLIMIT_AS", "RLIMIT_MEMLOCK", "-RLIMIT_NOFILE"}
+	pageSizes       = []string{"2MB", "1GB", "64KB", "-2MB"}
+	unifiedKeys     = []string{"memory.high", "cpu.weight", "io.max", "pids.max"}
+	unifiedDashKeys = []string{"-memory.high", "-cpu.weight", "-"}
+	annVals         = []string{"", "v1", "v2", "x=y", "{\"a\":1}", "-v1", "-"}
+	envVals         = []string{"", "v", "w", "a=b", "=", "x y", "/usr/bin:/bin", "-v", "--w"}
+	mountOpts       = []string{"ro", "rw", "rbind", "bind", "rprivate", "nosuid", "noexec", "nodev", "relabel", "-ro"} // never rshared/rslave: they read the host mount table
+	hookPaths       = []string{"/bin/h1", "/bin/h2", "/usr/libexec/hook", "-/bin/h1"}
+	cdiNames        = []string{"vendor.com/gpu=0", "vendor.com/gpu=1", "example.org/nic=eth1", "x.io/dev=all", "-vendor.com/gpu=0"}
+	classes         = []string{"gold", "silver", "bronze", "-gold"}
 )
 
 func pick[T any](t *rapid.T, label string, xs ...T) T { return rapid.SampledFrom(xs).Draw(t, label) }
@@ -373,10 +379,15 @@ func genSpec(t *rapid.T, pool []string) rspec.Spec {
 		for _, ps := range subset(t, "huge", pageSizes, 0, 3) {
 			r.HugepageLimits = append(r.HugepageLimits, rspec.LinuxHugepageLimit{Pagesize: ps, Limit: gen.U64().Draw(t, "hlimit")})
 		}
-		if chance(t, "unified", 1, 2) {
+		if chance(t, "unified", 2, 3) {
 			r.Unified = map[string]string{}
-			for _, k := range subset(t, "unified_keys", unifiedKeys, 0, 3) {
+			for _, k := range subset(t, "unified_keys", unifiedKeys, 1, 4) {
 				r.Unified[k] = pick(t, "uval", "max", "100", "")
+			}
+			if chance(t, "unified_dash", 1, 3) {
+				for _, k := range subset(t, "unified_dash_keys", unifiedDashKeys, 1, 2) {
+					r.Unified[k] = pick(t, "uval", "max", "100", "")
+				}
 			}
 			if chance(t, "unified_other", 1, 2) {
 				r.Unified["memory.swap.high"] = "max"
@@ -496,24 +507,25 @@ func genAdj(t *rapid.T, pool []string, den int) Adj {
 	}
 	if has("unified") {
 		a.Unified = map[string]string{}
-		for _, k := range subset(t, "uni_keys", append(append([]string(nil), unifiedKeys...), "cpu.max"), 1, 4) {
-			a.Unified[k] = pick(t, "univ", "max", "200", "1000 100000", "")
+		keys := append(append(append([]string(nil), unifiedKeys...), "cpu.max"), unifiedDashKeys...)
+		for _, k := range subset(t, "uni_keys", keys, 1, 4) {
+			a.Unified[k] = pick(t, "univ", "max", "200", "1000 100000", "", "-1")
 		}
 	}
 	if has("pids") {
 		a.Pids = ptrOf(gen.I64().Draw(t, "pids"))
 	}
 	if has("cgroups_path") {
-		a.CgroupsPath = pick(t, "cgpath", "/kubepods/pod1/ctr9", "system.slice:nri:ctr9", "x")
+		a.CgroupsPath = pick(t, "cgpath", "/kubepods/pod1/ctr9", "system.slice:nri:ctr9", "x", "-kubepods/x")
 	}
 	if has("oom") {
 		a.OomScoreAdj = ptrOf(int64(rapid.IntRange(-1000, 1000).Draw(t, "oom")))
 	}
 	if has("blockio") {
-		a.BlockIOClass = ptrOf(pick(t, "bioclass", "", classes[0], classes[1], classes[2]))
+		a.BlockIOClass = ptrOf(pick(t, "bioclass", "", classes[0], classes[1], classes[2], classes[3]))
 	}
 	if has("rdt") {
-		a.RdtClass = ptrOf(pick(t, "rdtclass", "", classes[0], classes[1], classes[2]))
+		a.RdtClass = ptrOf(pick(t, "rdtclass", "", classes[0], classes[1], classes[2], classes[3]))
 	}
 	a.EmptyLinux = chance(t, "empty_linux", 1, 4)
 	a.EmptyResources = chance(t, "empty_resources", 1, 4)
